@@ -34,6 +34,8 @@ PANIC_API = [
     (r"^alloc::vec::from_elem$", "vec::from_elem"),
     (r"^line_numbers::LinePositions::(from_offset|from_region)$", "LinePositions::from_offset"),
     (r"^core::num::<impl [iu](8|16|32|64|128|size)>::(pow|abs|div_euclid|rem_euclid|next_power_of_two|isqrt|ilog\w*|strict_\w+|unchecked_\w+)$", "int::panicky"),
+    (r"^core::num::<impl [iu](8|16|32|64|128|size)>::(wrapping|overflowing)_(div|rem)(_euclid)?$", "int::zero-div"),
+    (r"^<&?(mut )?[iu](8|16|32|64|128|size) as (std|core)::ops::(arith::)?(Add|Sub|Mul|Div|Rem|Neg|Shl|Shr)(Assign)?(<.*>)?>::\w+$", "int::ref-arith"),
     (r"^core::iter::traits::iterator::Iterator::step_by$", "Iterator::step_by"),
     (r"^core::char::(methods::<impl char>::)?from_digit$", "char::from_digit"),
     (r"^std::time::Instant::duration_since$|^<std::time::(Instant|SystemTime) as core::ops::arith::(Sub|Add)<.*>>::(sub|add)$|^<core::time::Duration as core::ops::arith::\w+<.*>>::\w+$", "time::arith"),
@@ -60,6 +62,7 @@ _NORM = [
     (re.compile(r"^std::vec::from_elem$"), "alloc::vec::from_elem"),
     (re.compile(r"^std::str::<impl str>::repeat$"), "alloc::str::<impl str>::repeat"),
     (re.compile(r"^std::slice::<impl \[T\]>::"), "core::slice::<impl [T]>::"),
+    (re.compile(r"^std::num::<impl "), "core::num::<impl "),
 ]
 
 
